@@ -61,6 +61,9 @@ func (f *FnVC) run() {
 	f.findLoops()
 	f.root = &State{f: f, m: map[string]string{}, kind: stRoot}
 	f.regHeap("$nextref", "Int")
+	f.regHeap("Gh_$goSpawns", "Int")
+	f.regHeap("Gh_$chanRecvs", "Int")
+	f.regHeap("Gh_$chanSends", "Int")
 	// entry assumptions
 	f.fact("(> " + f.root.get("$nextref") + " 0)")
 	for _, p := range fn.Params {
@@ -497,7 +500,7 @@ func (f *FnVC) instr(ins ssa.Instruction) {
 		f.selectStmt(x)
 	case *ssa.Send:
 		// no model of channel contents; a ghost counter records that a value was sent
-		h := f.regHeap("Gh_chanSends", "Int")
+		h := f.regHeap("Gh_$chanSends", "Int")
 		f.setHeap(h, "(+ "+f.st.get(h)+" 1)")
 	case *ssa.If:
 		c := f.val(x.Cond).T
@@ -909,7 +912,9 @@ func (f *FnVC) unop(x *ssa.UnOp) {
 			f.define(x, f.wrap("(- "+a.T+")", x.Type()))
 		}
 	case token.ARROW:
-		// channel receive: unconstrained
+		// channel receive: the value is unconstrained; a ghost counter records that a value was awaited
+		hr := f.regHeap("Gh_$chanRecvs", "Int")
+		f.setHeap(hr, "(+ "+f.st.get(hr)+" 1)")
 		tv := f.val(x)
 		if x.CommaOk {
 			ok := f.freshConst("recvok", "Bool")
@@ -1298,7 +1303,63 @@ func (f *FnVC) goStmt(x *ssa.Go) {
 	if callee != nil {
 		name = callee.String()
 	}
-	f.warn("go statement: goroutine %s is not modelled (no interleaving semantics)", name)
+	f.warn("go statement: goroutine %s is not modelled (no interleaving semantics); its preconditions are checked at the spawn point", name)
+	// the goroutine starts in (at least) the state of the spawn point: its preconditions must hold here
+	hs := f.regHeap("Gh_$goSpawns", "Int")
+	f.setHeap(hs, "(+ "+f.st.get(hs)+" 1)")
+	if callee == nil {
+		return
+	}
+	ct := f.g.contractFor(callee)
+	if ct == nil || len(ct.Requires) == 0 {
+		return
+	}
+	var args []TV
+	for _, a := range c.Args {
+		args = append(args, f.val(a))
+	}
+	env := f.baseEnv()
+	if ct.Pkg != "" {
+		env.pkg = ct.Pkg
+	}
+	env.st = f.st
+	env.old = f.st
+	env.oldVars = env.vars
+	env.lazy = nil
+	if mc, ok := c.Value.(*ssa.MakeClosure); ok && len(callee.FreeVars) == len(mc.Bindings) {
+		env.lazy = func(name string, st *State) (TV, bool) {
+			for i, fv := range callee.FreeVars {
+				if fv.Name() == name {
+					if _, isPtr := mc.Bindings[i].Type().Underlying().(*types.Pointer); isPtr {
+						loc := f.resolveLoc(mc.Bindings[i])
+						return f.tv(f.loadLoc(loc, st), loc.ty), true
+					}
+				}
+			}
+			return TV{}, false
+		}
+	}
+	if len(callee.Params) == len(args) {
+		for i, p := range callee.Params {
+			env.vars[p.Name()] = args[i]
+		}
+	}
+	short := strings.TrimPrefix(name, f.g.modPath+"/")
+	for _, r := range ct.Requires {
+		func() {
+			defer func() {
+				if rec := recover(); rec != nil {
+					if se, ok := rec.(specErr); ok {
+						o := f.oblige("pre", "go "+short+" requires "+r.Text, "false", x.Pos())
+						o.Status, o.Output = "failed", string(se)
+						return
+					}
+					panic(rec)
+				}
+			}()
+			f.oblige("pre", "go "+short+" requires "+r.Text, f.trBool(env, r.E), x.Pos())
+		}()
+	}
 }
 
 func (f *FnVC) runDefers(x *ssa.RunDefers) {
